@@ -418,8 +418,29 @@ impl Prop for C08 {
             ("contained-cycle", "A ::= INTEGER (B)\nB ::= INTEGER (A)"),
             ("contained-self", "A ::= INTEGER (A)"),
             ("size-self", "A ::= OCTET STRING (SIZE (a))\na A ::= '00'H"),
+            // (third hunter round)
+            ("valuecycle:default-of-referenced-type", "T ::= BOOLEAN\nA ::= SEQUENCE { x T DEFAULT b }\nb BOOLEAN ::= b"),
+            ("valuecycle:default-of-referenced-type-2", "T ::= BOOLEAN\nA ::= SEQUENCE { x T DEFAULT b }\nb BOOLEAN ::= c\nc BOOLEAN ::= b"),
+            ("objectcycle", "CLS ::= CLASS { &id INTEGER UNIQUE } WITH SYNTAX { ID &id }\nz CLS ::= { a }\na CLS ::= { b }\nb CLS ::= { a }"),
+            ("objectcycle-self", "CLS ::= CLASS { &id INTEGER UNIQUE } WITH SYNTAX { ID &id }\na CLS ::= { a }"),
+            ("objsetcycle-extensible", "CLS ::= CLASS { &id INTEGER UNIQUE }\nZ CLS ::= { A1, ... }\nA1 CLS ::= { B1, ... }\nB1 CLS ::= { A1, ... }"),
+            ("object-as-actual-parameter", "P { T } ::= INTEGER\nA ::= P { { &id 1 } }"),
+            ("value-as-type-parameter", "P { T } ::= SEQUENCE { a T }\nA ::= P { 5 }"),
         ] {
             push("graph", lab.to_string(), module(body), "both");
+        }
+        // ---- family 5a'': fan-out (valid modules in which a definition is referenced twice per level): the work must not
+        // double with every level
+        for depth in if tier.thorough() { vec![4usize, 8, 16, 20, 24] } else { vec![4usize, 8, 16, 20] } {
+            let chain = |f: &dyn Fn(usize) -> String, last: &str| -> String { (0..depth).map(|i| f(i)).collect::<Vec<_>>().join("\n") + "\n" + last };
+            for (lab, body) in [
+                ("fanout:diamond-types", chain(&|i| format!("T{i} ::= SEQUENCE {{ a T{}, b T{} }}", i + 1, i + 1), &format!("T{depth} ::= INTEGER"))),
+                ("fanout:contained-subtypes", chain(&|i| format!("A{i} ::= INTEGER (A{} | A{})", i + 1, i + 1), &format!("A{depth} ::= INTEGER (0..5)"))),
+                ("fanout:components-of", chain(&|i| format!("T{i} ::= SEQUENCE {{ a{i} INTEGER, COMPONENTS OF T{}, COMPONENTS OF T{} }}", i + 1, i + 1), &format!("T{depth} ::= SEQUENCE {{ z INTEGER }}"))),
+                ("fanout:object-braces", format!("CLS ::= CLASS {{ &id INTEGER UNIQUE }}\nS CLS ::= {}{{&id 1}}{}", "{ ".repeat(depth), " }".repeat(depth))),
+            ] {
+                push("graph", format!("{lab}:depth={depth}"), module(&body), "both");
+            }
         }
         // ---- family 5a': permitted alphabets over the 65 k-character tables (work must stay proportional to the input)
         {
